@@ -30,6 +30,9 @@ def _pair(t):
     return [list(t.open), list(t.close) if t.close else [-1, -1]]
 
 
+TWICE = [False]
+
+
 def _rec(fn, pos, f):
     base = {'fn': fn, 'pos': pos, 'exc': False, 'r': [], 'names': [], 'kinds': [], 'dl': [], 'm': []}
     try:
@@ -62,6 +65,7 @@ def _chunk(items):
     out = []
     for tid, src, lang in items:
         calls = []
+        TWICE[0] = zlib.crc32(src.encode()) % 3 == 0          # every third source: each answer is asked for twice (see _rec callers)
         if lang == 'html':
             def f(b):
                 def cb(n, t, s, e):
@@ -70,6 +74,8 @@ def _chunk(items):
             calls.append(_rec('html.scan', 0, f))
 
             def f(b):
+                if TWICE[0]:
+                    common.scramble(hm.attributes(src))          # the first answer is changed in place by its owner, the second one is judged
                 for a in hm.attributes(src):
                     b['r'].append([a.name_start, a.name_end])
                     if a.value is not None:
@@ -81,6 +87,8 @@ def _chunk(items):
                     mres = []
 
                     def f(b):
+                        if TWICE[0]:
+                            common.scramble(hm.match(src, pos, opt))
                         m = hm.match(src, pos, opt)
                         if m is not None:
                             b['r'] += _pair(m)
@@ -93,12 +101,16 @@ def _chunk(items):
                     calls.append(_rec('html.match', pos, f))
 
                     def f(b):
+                        if TWICE[0]:
+                            common.scramble(hm.balanced_outward(src, pos, opt))
                         for t in hm.balanced_outward(src, pos, opt):
                             b['r'] += _pair(t)
                         b['m'] = list(mres)
                     calls.append(_rec('html.outward', pos, f))
 
                     def f(b):
+                        if TWICE[0]:
+                            common.scramble(hm.balanced_inward(src, pos, opt))
                         for t in hm.balanced_inward(src, pos, opt):
                             b['r'] += _pair(t)
                     calls.append(_rec('html.inward', pos, f))
@@ -110,20 +122,28 @@ def _chunk(items):
             calls.append(_rec('css.scan', 0, f))
 
             def f(b):
+                if TWICE[0]:
+                    common.scramble(split_value(src))
                 b['r'] += [list(r) for r in split_value(src)]
             calls.append(_rec('css.split_value', 0, f))
             for pos in _positions(src):
                 def f(b):
+                    if TWICE[0]:
+                        common.scramble(cm.match(src, pos))
                     m = cm.match(src, pos)
                     if m is not None:
                         b['r'] += [[m.start, m.end], [m.body_start, m.body_end]]
                 calls.append(_rec('css.match', pos, f))
 
                 def f(b):
+                    if TWICE[0]:
+                        common.scramble(cm.balanced_outward(src, pos))
                     b['r'] += [list(r) for r in cm.balanced_outward(src, pos)]
                 calls.append(_rec('css.outward', pos, f))
 
                 def f(b):
+                    if TWICE[0]:
+                        common.scramble(cm.balanced_inward(src, pos))
                     b['r'] += [list(r) for r in cm.balanced_inward(src, pos)]
                 calls.append(_rec('css.inward', pos, f))
         out.append({'tid': tid, 'src': src, 'lang': lang, 'calls': calls})
